@@ -408,11 +408,9 @@ def quick_variants():
         # L3 array of two MemWords at 0x0, 0x4; 0x8 unmapped
         V("array/q1", "array", [0x0, 0x4], [(A, F), (B, M)], 1),
         V("array/q2", "array", [0x4, 0x8], [(A, F), (B, L)], 1),
-        V("array/q3", "array", [0x0, 0x4], [(A, F), (B, L)], 2),
         # L4 MemWord 0x0, hole 0x4, RegFile@0x8 {MemWord 0x8, read-only Word 0xC driven by hardware}
         V("nested/q1", "nested", [0x8, 0xC], [(A, F), (B, L)], 1),
         V("nested/q2", "nested", [0x0, 0x8, 0x4], [(A, F), (B, M)], 1, HW_Y_FIXED),
-        V("nested/q3", "nested", [0x8, 0xC], [(A, F), (B, L)], 2),
     ]
 
 
@@ -442,6 +440,8 @@ def thorough_variants():
         V("nested/t1", "nested", [0x0, 0x8, 0xC, 0x4], [(A, F), (B, M)], 1, max_states=big),
         V("nested/t2", "nested", [0x0, 0x8, 0xC], [(A, F), (B, L), (B, M)], 1, max_states=big),
         V("nested/t3", "nested", [0x0, 0x8], [(A, F), (B, M)], 2, HW_Y_FIXED, max_states=big),
+        V("nested/t4", "nested", [0x8, 0xC], [(A, F), (B, L)], 2, max_states=big),
+        V("array/t3", "array", [0x0, 0x4], [(A, F), (B, L)], 2, max_states=big),
         V("memword/t5", "memword", [0x0], ALL8, 2, max_states=big),
         V("fields/t5", "fields", [0x0, 0x8], [(A, F), (B, F)], 2, HW_FIXED, max_states=big),
         V("fields/t6", "fields", [0x0, 0x8, 0x4], [(A, F), (B, L), (A, M), (B, Z)], 1, max_states=big),
@@ -470,7 +470,14 @@ def main(run: Run):
     if only:
         vs = [v for v in vs if v["name"] in only or v["layout"] in only]
     # largest first: better packing on the pool
-    order = sorted(vs, key=lambda v: -(len(v["wpay"]) + 1) * (len(v["addrs"]) + 1) ** 2 * (4 if v["maxo"] > 1 else 1))
+    def size_hint(v):
+        hw = v["hw"] or {h[0]: h[2] for h in LAYOUTS[v["layout"]]["hw"]}
+        n = 1
+        for vals in hw.values():
+            n *= len(vals)
+        return (len(v["wpay"]) + 1) * (len(v["addrs"]) + 1) ** 2 * (4 if v["maxo"] > 1 else 1) * n
+
+    order = sorted(vs, key=lambda v: -size_hint(v))
     run.count("variants", len(vs))
     all_events = set()
     layouts_seen = set()
